@@ -92,6 +92,28 @@ OP(new_zero_f)
     free(fz);
     return rc;
 }
+OP(solve_A3)      { NEED(F->vnpA3); return vnacal_new_solve(F->vnpA3); }
+OP(solve_A5)      { NEED(F->vnpA5); return vnacal_new_solve(F->vnpA5); }
+OP(solve_A1)      { NEED(F->vnpA1); return vnacal_new_solve(F->vnpA1); }
+OP(getval_shared)
+{
+    /* the shared unknowns at every frequency of every object */
+    for (int k = 0; k < 5; ++k) {
+	(void)vnacal_get_parameter_value(F->vcp, F->p_shared, F->f5[k]);
+	(void)vnacal_get_parameter_value(F->vcp, F->p_sharedc, F->f5[k]);
+    }
+    (void)vnacal_get_parameter_value(F->vcp, F->p_unknown, F->f3[1]);
+    return 0;
+}
+OP(delpar_shared) { return vnacal_delete_parameter(F->vcp, F->p_shared); }
+OP(delpar_sharedc){ return vnacal_delete_parameter(F->vcp, F->p_sharedc); }
+OP(free_A3)       { NEED(F->vnpA3); vnacal_new_free(F->vnpA3); F->vnpA3 = NULL; return 0; }
+OP(free_A5)       { NEED(F->vnpA5); vnacal_new_free(F->vnpA5); F->vnpA5 = NULL; return 0; }
+OP(free_A1)       { NEED(F->vnpA1); vnacal_new_free(F->vnpA1); F->vnpA1 = NULL; return 0; }
+OP(addcal_A5)     { NEED(F->vnpA5); return vnacal_add_calibration(F->vcp, "calA5", F->vnpA5); }
+OP(merr_T16)      { NEED(F->vnpT16); return vnacal_new_set_m_error(F->vnpT16, F->f5, 5, F->sig5, NULL); }
+OP(add_T16)       { NEED(F->vnpT16); return vnacal_new_add_single_reflect_m(F->vnpT16, F->mp, 2, 2, VNACAL_OPEN, 2); }
+OP(merr_A5)       { NEED(F->vnpA5); return vnacal_new_set_m_error(F->vnpA5, NULL, 1, F->sig5, NULL); }
 OP(gprop_set)     { return vnacal_property_set(F->vcp, -1, "g.list[+]=x"); }
 OP(cprop_set)     { return vnacal_property_set(F->vcp, F->ciA, "arr[0+]=ins"); }
 OP(gprop_del)     { return vnacal_property_delete(F->vcp, -1, "arr"); }
@@ -148,7 +170,9 @@ static const struct { const char *name; op_fn *fn; } ops[] = {
     O(delpar_vector), O(delpar_corr), O(make_unknown), O(make_corr_new),
     O(delpar_new), O(free_L), O(free_S), O(save), O(load), O(apply_A),
     O(apply_B_ab), O(apply_loaded), O(set_m_error), O(set_fvec),
-    O(new_zero_f), O(gprop_set), O(cprop_set), O(gprop_del),
+    O(new_zero_f), O(solve_A3), O(solve_A5), O(solve_A1), O(getval_shared),
+    O(delpar_shared), O(delpar_sharedc), O(free_A3), O(free_A5), O(free_A1),
+    O(addcal_A5), O(merr_T16), O(add_T16), O(merr_A5), O(gprop_set), O(cprop_set), O(gprop_del),
     O(cprop_del_all), O(cprop_subtree), O(vd_grow), O(vd_shrink),
     O(vd_conv_inpl), O(vd_conv_zin), O(vd_set_fz0), O(vdf_set_z0),
     O(vdf_grow), O(vd_add_f), O(vdf_add_f), O(vdf_init), O(vd_init_bad),
@@ -241,7 +265,7 @@ vf_driver vf_drv = {
 	"the public vnacal, vnacal_new, parameter, vnadata, vnaproperty and "
 	"vnaconv functions) with 0, 1 or (thorough) 2 arguments moved to a "
 	"value of their boundary domain, on a freshly built rich fixture; or "
-	"one ordered pair (thorough: triple) of 61 state-changing operations "
+	"one ordered pair (thorough: triple) of 74 state-changing operations "
 	"followed by a full query of every object and teardown.  Non-trivial: "
 	"the fully valid call, every call that must fail by the documentation "
 	"(return value compared), and every history; alternative-value calls "
